@@ -1,5 +1,5 @@
 """C01 — no input can crash, panic or hang any entry point."""
-import json, random, re
+import json, os, random, re
 import common, sqlgen, loopgen, totalrun
 from common import Report
 
@@ -161,6 +161,26 @@ def run(tier):
                       "detail": f["detail"][:1500], "explanation": "a large but in-limit input makes this call die or stall (stack exhaustion / out of memory / no progress)"},
                      "total_big_%s_%d_%s" % (f["kind"], f["id"], re.sub(r"\W+", "_", f["entry"])[:20]))
     rp.cov["large_input_calls"] = bcalls
+    # concurrent callers on many distinct malformed inputs (process-wide caches reach their eviction paths): a Go runtime
+    # fatal error (concurrent map access, unlock of unlocked mutex) kills the process and cannot be recovered, so it is
+    # observed on a child process; plain build, all cores
+    import c10
+    nc = os.cpu_count() or 4
+    conc_runs = []
+    for rnd in range(2 if tier == "quick" else 8):
+        rc, res, races, err = c10.run_mix(max(nc, 4), 1500, common.seed() + rnd, c10.wide_inputs(), ops=["parse", "recovery", "suggest", "parse_ctx", "lint", "format"], race=False)
+        conc_runs.append(rc)
+        m = re.search(r"(?m)^(fatal error: .*|panic: .*)$", err or "")
+        if rc != 0 and (m or res is None):
+            n_new += 1
+            rp.violation({"kind": "oracle", "failure": "process killed", "mode": "mix", "n": max(nc, 4), "ops_per_g": 1500, "seed": common.seed() + rnd,
+                          "ops": ["parse", "recovery", "suggest", "parse_ctx", "lint", "format"], "inputs_generator": "c10.wide_inputs(2400)",
+                          "first_line": m.group(1) if m else "exit %d" % rc, "frames": (races or [{}])[-1], "detail": (err or "")[:1500],
+                          "explanation": "concurrent callers parsing distinct malformed statements kill the process: %s" % (m.group(1) if m else "exit %d" % rc)},
+                         "total_concurrent_fatal")
+            break
+    rp.cov["concurrent_runs"] = len(conc_runs)
+    rp.obligation("oracle: %d processes of %d goroutines x 1500 calls on 2400 distinct malformed inputs finished normally" % (len(conc_runs), max(nc, 4)), all(r == 0 for r in conc_runs))
     rp.cov["large_input_bytes"] = [len(b) for b in big]
     rp.obligation("oracle: %d calls (%d inputs x every entry point) returned a value or an error" % (calls, len(ins)), n_new == 0)
     if tier != "quick":
@@ -198,6 +218,12 @@ def replay(path):
         fs, calls = totalrun.run_all([big], only=d.get("entry", "").split("(")[0] or None, workers=1, stall_s=240, mem_gb=10)
         print(json.dumps(fs)[:800], "calls", calls)
         return 1 if fs else 0
+    if d.get("mode") == "mix":
+        import c10
+        rc, res, races, err = c10.run_mix(d["n"], d["ops_per_g"], d["seed"], c10.wide_inputs(), ops=d["ops"], race=False)
+        m = re.search(r"(?m)^(fatal error: .*|panic: .*)$", err or "")
+        print("exit", rc, m.group(1) if m else "")
+        return 1 if rc != 0 else 0
     if d.get("input_b64") is not None:
         raw = base64.b64decode(d["input_b64"])
         fs, calls = totalrun.run_all([raw], only=d.get("entry", "").split("(")[0] or None, workers=1, stall_s=30)
